@@ -67,6 +67,8 @@ func main() {
 			panic(r)
 		}
 	}()
+	debugFacts(c)
+	debugGuards(c)
 	info := pf(c)
 	if *dump {
 		for _, o := range c.Obls {
